@@ -1,5 +1,5 @@
 (* Props_C06.v — collection removes the garbage and is not starved (model: GC.v). *)
-From Olareg Require Import Base Index Reg RegProofs GC GCProofs.
+From Olareg Require Import Base Index Reg RegProofs GC GCProofs GCTerm.
 Local Open Scope list_scope.
 
 (* every blob that the mark phase did not reach and that the grace period does not protect is deleted *)
@@ -25,3 +25,14 @@ Theorem C06_pass_independent : forall cfg E pol now fails repos r,
   = option_map (fun rp => if fails r then rp else gc_one cfg E pol now rp) (assoc r repos).
 Proof. exact gc_pass_independent. Qed.
 Print Assumptions C06_pass_independent.
+
+(* not starved by its own loop: the mark phase terminates for every index and every set of blobs - also for entries whose media
+   type is not a manifest type and that name each other as referrers subject, the input on which the loop of repoGarbageCollect
+   ran forever before the response of a subject was queued only once (finding C06-F54, repaired) *)
+Theorem C06_mark_terminates : forall E pol now blobs i,
+  mark E blobs (mark_fuel E blobs i) (fst (fst (phase1 pol now blobs i))) (snd (fst (phase1 pol now blobs i))) [] []
+       (snd (phase1 pol now blobs i)) <> None.
+Proof. exact mark_terminates. Qed.
+Theorem C06_collection_total : forall E pol now blobs i, repo_gc E pol now blobs i <> None.
+Proof. exact gc_total. Qed.
+Print Assumptions C06_collection_total.
